@@ -72,3 +72,33 @@ package parse
 //@   ensures C15_error_returns_nil_slice: err != nil ==> out == nil
 //@   ensures C15_bad_element_rejected: (exists k int :: 0 <= k && k < splitCount(s, ",") && (!isUintLit(trimSpace(splitPart(s, ",", k)))
 //@        || uintval(trimSpace(splitPart(s, ",", k))) > uHi(bitsof("I")))) ==> err != nil
+
+// ---------------------------------------------------------------------------------------------
+// the two scanner loops (C16: no input makes a parser hang or panic).  Termination is relative to the assumed
+// text/scanner contract: every token other than EOF consumes input, and the loop leaves at EOF.
+// ---------------------------------------------------------------------------------------------
+// callbacks handed to the splitters by this package only add to a caller-owned collection
+//@ functype func(k string, v string) error(f, k, v) (err)
+//@   modifies *
+//@   ensures scanLeft == old(scanLeft)
+//@ functype func(val string) error(f, val) (err)
+//@   modifies *
+//@   ensures scanLeft == old(scanLeft)
+
+//@ func parse.splitMap(s, addKV) (err)
+//@   props C16
+//@   safety C16
+//@   requires addKV != nil
+//@   modifies *
+//@   loop 0:
+//@     invariant scanLeft >= 0
+//@     decreases scanLeft, b2i(tok != -1)
+
+//@ func parse.splitStringsSlice(s, addVal) (err)
+//@   props C16
+//@   safety C16
+//@   requires addVal != nil
+//@   modifies *
+//@   loop 0:
+//@     invariant scanLeft >= 0
+//@     decreases scanLeft, b2i(tok != -1)
